@@ -16,12 +16,18 @@ def copy_tree(src, dst):
 class CacheSet:
     """a private (GOCACHE, GARBLE_CACHE) pair, created as a copy of a snapshot"""
 
-    def __init__(self, E, name, base=None):
+    def __init__(self, E, name, base=None, link_go=False):
+        """link_go: hard-link the (content-addressed, never rewritten in place) GOCACHE entries instead of copying them;
+        only for callers that do not damage cache files themselves"""
         self.dir = os.path.join(E.scratch, name)
         os.makedirs(self.dir)
         self.go, self.garble = os.path.join(self.dir, "go"), os.path.join(self.dir, "garble")
         if base:
-            copy_tree(base.go, self.go); copy_tree(base.garble, self.garble)
+            if link_go:
+                subprocess.run(["cp", "-al", base.go, self.go], check=True)
+            else:
+                copy_tree(base.go, self.go)
+            copy_tree(base.garble, self.garble)
         else:
             os.makedirs(self.go); os.makedirs(self.garble)
 
